@@ -30,6 +30,15 @@ func NewWriter(path string) (*Writer, error) {
 	return &Writer{w: bufio.NewWriterSize(f, 1<<20), f: f}, nil
 }
 
+// NewAppendWriter opens an existing trace file for appending (driver re-exec).
+func NewAppendWriter(path string) (*Writer, error) {
+	f, err := os.OpenFile(path, os.O_WRONLY|os.O_APPEND|os.O_CREATE, 0o644)
+	if err != nil {
+		return nil, err
+	}
+	return &Writer{w: bufio.NewWriterSize(f, 1<<20), f: f}, nil
+}
+
 func (w *Writer) Emit(ev Ev) {
 	w.mu.Lock()
 	defer w.mu.Unlock()
